@@ -111,6 +111,21 @@ pub fn index_edges(
     Ok(out)
 }
 
+// `Config::new` followed by `Config::check` and `fill`, serialized: what every
+// sub-command does with `-f <file>` before anything else, and what `config show`
+// prints. The working directory is the parent of the file, as in `api::cli::handle`.
+pub fn config_load(config_file_path: &path::Path) -> Result<String, String> {
+    let work_path = config_file_path
+        .parent()
+        .ok_or_else(|| "config file has no parent directory".to_string())?;
+    let mut config = core::Config::new(config_file_path).map_err(|e| err_json(&e))?;
+    config
+        .check(config_file_path, work_path)
+        .map_err(|e| err_json(&e))?;
+    config.fill();
+    serde_json::to_string(&config).map_err(|e| e.to_string())
+}
+
 #[derive(Debug, Clone)]
 pub enum Step {
     Write(Vec<u8>),
